@@ -41,6 +41,10 @@ fn main() {
                 Err(e) => println!("{}\n  => compile {}", src, e),
             }
         }
+    if facet == "--c12-child" {
+        // isolated executor of the C12 facet: one context per input line
+        std::panic::set_hook(Box::new(|_| {}));
+        facets::c12::child_main();
         return;
     }
     let mut opts = Opts {
@@ -103,6 +107,8 @@ fn main() {
         "C15" => facets::c15::run(&opts),
         "C16" => facets::c16::run(&opts),
         "C20" => facets::c20::run(&opts),
+        "C12" => facets::c12::run(&opts),
+        "C11" => facets::c11::run(&opts),
         other => {
             eprintln!("unknown facet {}", other);
             std::process::exit(2)
